@@ -202,7 +202,13 @@ func genC15Case(r *rand.Rand, kind string) c15Case {
 			last = []*snode{{kind: "incellMap", name: g.vname() + "1", typ: "int32", sname: "string"}}
 		}
 	}
-	gs := g.sheet("HeroConf", 1+r.Intn(4), 2+r.Intn(5), last...)
+	nf := 1 + r.Intn(4)
+	// appended sheets after a TRANSPOSED sheet with more fields than the importers' schema window of 10 lines
+	wideTransposed := kind == "sheets" && r.Intn(2) == 0
+	if wideTransposed {
+		nf = 9 + r.Intn(3)
+	}
+	gs := g.sheet("HeroConf", nf, 2+r.Intn(5), last...)
 	v1 := bookSpec{Name: "Fuzz", Sheets: []sheetSpec{gs.spec}}
 	rows2 := make([][]string, len(gs.spec.Rows))
 	for i, row := range gs.spec.Rows {
@@ -274,7 +280,12 @@ func genC15Case(r *rand.Rand, kind string) c15Case {
 		gs2 := g.sheet("ZoneConf", 1+r.Intn(3), 1+r.Intn(3))
 		v2.Sheets = append(v2.Sheets, gs2.spec)
 	}
-	if r.Intn(3) == 0 {
+	if wideTransposed {
+		for _, b := range []*bookSpec{&v1, &v2} {
+			b.Sheets[0].Rows = transposeRows(b.Sheets[0].Rows)
+			b.Sheets[0].Meta = map[string]string{"Transpose": "true"}
+		}
+	} else if r.Intn(3) == 0 {
 		if kind == "data" && len(v2.Sheets[0].Rows) > 3 {
 			// one more data edit: the first data line is rewritten
 			var row []string
